@@ -18,7 +18,7 @@ from ..runner import run_check, CaseResult, Scratch
 
 PROP = 'C16'
 BIN = {}
-SYMS = ['first', 'physical', 'ssd', 'dsd', 'hfe', 'mfm2', 'mmb']
+SYMS = ['first', 'physical', 'ssd', 'dsd', 'hfe', 'mfm2', 'ssd2', 'mmb']
 MMB_SLOTS = [0, 1, 2, 7, 255, 510]
 
 
@@ -38,6 +38,12 @@ def make_item(rng, sym, pos, tmp):
         p = os.path.join(tmp, tag + '.ssd')
         write_file(p, s.image())
         return p, [tag + 'SSD'], None
+    if sym == 'ssd2':
+        # two-sided non-interleaved image: side 0 then side 1
+        s0, s1 = tiny_surface(rng, tag + 'TWO0'), tiny_surface(rng, tag + 'TWO1', sid=1)
+        p = os.path.join(tmp, tag + '.ssd')
+        write_file(p, s0.image() + s1.image())
+        return p, [tag + 'TWO0', tag + 'TWO1'], None
     if sym == 'dsd':
         s0, s1 = tiny_surface(rng, tag + 'DSD0'), tiny_surface(rng, tag + 'DSD1', sid=1)
         p = os.path.join(tmp, tag + '.dsd')
